@@ -49,6 +49,8 @@ CONFIGS = {
     "miri": ("+nightly", "", "dev", ["probes"], [], "miri"),
     "miri-wrap": ("+nightly", "", "dev", ["probes"], ["--config", "profile.dev.overflow-checks=false"], "miri"),
     "miri-native": ("+nightly", "-C target-cpu=native", "dev", ["probes"], [], "miri"),
+    # Not used by any registered check: source-coverage measurement of the workloads (coverage.py).
+    "cov": ("+nightly", "-Cinstrument-coverage -C target-cpu=native", "release", ["probes"], [], "native"),
 }
 
 
@@ -82,6 +84,9 @@ def env_for(cfg):
             env["ASAN_SYMBOLIZER_PATH"] = sym
     if cfg == "tsan":
         env["TSAN_OPTIONS"] = "halt_on_error=1:exitcode=66"
+    if cfg == "cov":
+        os.makedirs(os.path.join(CACHE, "cov"), exist_ok=True)
+        env["LLVM_PROFILE_FILE"] = os.path.join(CACHE, "cov", "vmon-%p-%8m.profraw")
     return env
 
 
@@ -239,10 +244,15 @@ def jobs_for(prop, tier, seed, only_leg=None):
     jobs = []
     tmp = os.path.join(CACHE, "tmp")
     only_cfgs = [c for c in os.environ.get("VERIF_ONLY_CFGS", "").split(",") if c]
+    if only_cfgs == ["cov"]:
+        # Coverage measurement: the `rel` legs of the plan, built with source-coverage instrumentation.
+        legs = [dict(l, cfg="cov") if l["cfg"] == "rel" else l for l in legs]
     for li, leg in enumerate(legs):
         if only_leg is not None and li != only_leg:
             continue
         if only_cfgs and leg["cfg"] not in only_cfgs and not leg.get("python"):
+            continue
+        if only_cfgs == ["cov"] and leg["cfg"] != "cov":
             continue
         n = leg.get("shards", 1)
         of = leg.get("of", n)
@@ -259,7 +269,7 @@ def jobs_for(prop, tier, seed, only_leg=None):
             if leg.get("python"):
                 # A Python stage of the pipeline (the independent format codec); prints the same VMON-RESULT line.
                 args = [a.format(dir=work_dir(prop, tier, seed), shard=s, nshards=of, seed=seed) for a in leg["pyargs"]]
-            jobs.append({"cfg": leg["cfg"], "args": args, "leg": li, "shard": s, "stage": leg.get("stage", 0), "python": leg.get("python"), "only_crash": bool(leg.get("driver")), "timeout": leg.get("timeout", 900 if tier == "quick" else 5400),
+            jobs.append({"cfg": leg["cfg"], "args": args, "leg": li, "shard": s, "stage": leg.get("stage", 0), "python": leg.get("python"), "only_crash": bool(leg.get("driver")), "driver": leg.get("driver", ""), "part": leg.get("part", ""), "timeout": leg.get("timeout", 900 if tier == "quick" else 5400),
                          "env": leg.get("env", {}), "weight": leg.get("weight", 1), "seed": seed})
     return jobs
 
@@ -399,6 +409,10 @@ def run_property(prop, tier, seed):
             # Legs that replay another property's workload under a sanitizer contribute process-level verdicts only.
             for v in res["violations"]:
                 violations.append((v["sig"], v["detail"], job))
+        elif res.get("oob_count", 0) > 0:
+            # ... which includes the bounds hooks: an unchecked accessor reached with an out-of-range index.
+            violations.append(("bounds_hook.replay.%s" % job.get("driver", "?"), "the bounds hooks fired %d time(s) while the %s workload (part %r, shard %d) ran through the safe API; first monitor complaint of that shard: %s"
+                               % (res["oob_count"], job.get("driver", "?"), job.get("part", ""), job["shard"], "; ".join(v["detail"][:200] for v in res["violations"][:1]) or "n/a"), job))
         for i in res["inconclusive"]:
             inconclusive.append("%s shard %d: %s" % (job["cfg"], job["shard"], i))
 
